@@ -436,7 +436,7 @@ func Spec() *core.Spec {
 		Level: "fault_enumeration",
 		Rule: "sequences of 1-6 generic messages (sizes 16 B .. 9 KB around the 512-byte initial buffer, now and then up to 1 MiB) x segmentations {1-byte reads, fixed 2..9, random, one read, cuts exactly at / one byte around every message boundary} with byte accounting after every Recv; " +
 			"truncation at EVERY byte offset of messages up to 2 KB behind a complete message; announced lengths {max-16 .. max+8, 2*max, 2^31, 2^32-8, 2^32-1} for max in {64 KiB, 1 MiB} with consumed-byte, requested-size and TotalAlloc monitors; " +
-			"the last chunk delivered together with io.EOF; byte-wise delivery against a real server connection and a real client connection. distinct = distinct (segmentation, boundaries) / (size, offset class) combinations",
+			"the last chunk delivered together with io.EOF; byte-wise delivery against a real server connection and a real client connection. every fifth item a bare padded scalar; distinct = distinct (segmentation, boundaries) / (size, offset class) combinations",
 		Assumptions: []string{"messages are compared as trees read back by the harness from the generic value", "alloc monitor: runtime.MemStats.TotalAlloc delta around a single-goroutine call, threshold 256 KiB"},
 		Required:    []string{"sequences", "recvs", "scalar_messages", "truncations", "limit_cases.over", "limit_cases.within", "eof_with_data_cases", "e2e_server_messages", "e2e_client_messages", "segmentation.1-byte", "segmentation.one-read"},
 		Families: []core.Family{
